@@ -12,7 +12,7 @@ NOTE = ("Trusted: Lean 4.33 kernel (axioms audited per theorem to lie within pro
 
 CLAIMED = {
     "C16": dict(
-        text=("Kernel-checked theorems over any linearly ordered field, for strictly increasing abscissae and n >= 2: the linear scan returns the unique bracketing index; at a knot the result is exactly that knot's ordinate in every mode; inside the range the result is the value on the line through the two neighbouring knots, hence between their ordinates; left of the first abscissa and right of the last the three modes give panic / the left resp. right fill value / the continuation of the first resp. last segment (the right-hand statements were false before repair F28); the checked variant rejects mismatched lengths and any descending step and otherwise agrees with the unchecked one; one outside target aborts the whole call in panic mode; totality otherwise. Tied bit for bit to the Rust code (knot counts 2..200, spacing ratios to 1e6, targets at knots, midpoints, +-1 ulp around knots and beyond both ends, all modes, both variants); exact-rational oracle (exact at knots and fills, derived forward-error bound inside). Rounding of the interior formula is checked, not proved."),
+        text=("Kernel-checked theorems over any linearly ordered field, for strictly increasing abscissae and n >= 2: the linear scan returns the unique bracketing index; at a knot the result is exactly that knot's ordinate in every mode; inside the range the result is the value on the line through the two neighbouring knots, hence between their ordinates; left of the first abscissa and right of the last the three modes give panic / the left resp. right fill value / the continuation of the first resp. last segment (the right-hand statements were false before repair F28); the checked variant rejects mismatched lengths and any descending step and otherwise agrees with the unchecked one; one outside target aborts the whole call in panic mode; totality otherwise. Tied bit for bit to the Rust code (knot counts 2..200, spacing ratios to 1e6, targets at knots, midpoints, +-1 ulp around knots and beyond both ends, all modes, both variants); exact-rational oracle (exact at knots and fills, derived forward-error bound inside). Rounding of the interior formula in the standard model: result within gamma_8 max|y| (<= 16u) of the line, exact at every knot (Props/Rounding2); the extrapolation branch is checked by the oracle only."),
         design='DESIGN.md §6 C16',
         technique='Lean 4 proof (scan invariant, segment algebra over ordered fields) + bit-exact correspondence + exact-rational oracle'),
     "C17": dict(
@@ -24,7 +24,7 @@ CLAIMED = {
         design='DESIGN.md §6 C19',
         technique='Lean 4 proof (List.Perm invariants over swap sequences, Lemire counting argument on Nat) + bit-exact correspondence incl. RNG state'),
     "C02": dict(
-        text=("Kernel-checked theorems over R about the model of pdf/pmf, ln_pdf, cdf, mean and var of the 13 univariate laws and the multivariate normal, with the special functions as explicit parameters (hypotheses such as exp(lnGamma z) = Gamma z are stated and shown satisfiable): Normal, Gamma, Exponential, ChiSquared (= Gamma(k/2, 1/2)), Beta and Pareto densities equal Mathlib's gaussianPDFReal / gammaPDFReal / exponentialPDFReal / betaPDFReal / paretoPDFReal, whence non-negativity and total mass 1 are transferred; Poisson pmf = e^-l l^k / k! and sums to 1; Binomial pmf = C(n,k) p^k (1-p)^(n-k), 0 for negative and too-large counts, sums to 1 (binomial theorem); Bernoulli and DiscreteUniform: mass 1, first moment = mean(), second central moment = var() by exact finite sums; Uniform, Gumbel (density = derivative of its CDF), T via short specs; every density/mass is 0 outside the support (no panic outcome) and non-negative; the mean/var accessors equal the textbook formulas for all laws (with the infinite/undefined regimes of T and Pareto); Normal ln_pdf = log o pdf and the cdf formula; MVN pdf in terms of the cached inverse and determinant. PARTIAL: accuracy of Lanczos/erf (C09), moments as integrals for most continuous laws, cdf as the integral of the density, and that the MVN cache is the true inverse/determinant (C01/C11) are not proved; decided by the bit-exact tie (60k values quick) plus mpmath/scipy closed forms at every point and total mass / moments recomputed from the implementation's own values by quadrature or exact sums."),
+        text=("Kernel-checked theorems over R about the model of pdf/pmf, ln_pdf, cdf, mean and var of the 13 univariate laws and the multivariate normal, with the special functions as explicit parameters (hypotheses such as exp(lnGamma z) = Gamma z are stated and shown satisfiable): Normal, Gamma, Exponential, ChiSquared (= Gamma(k/2, 1/2)), Beta and Pareto densities equal Mathlib's gaussianPDFReal / gammaPDFReal / exponentialPDFReal / betaPDFReal / paretoPDFReal, whence non-negativity and total mass 1 are transferred; Poisson pmf = e^-l l^k / k! and sums to 1; Binomial pmf = C(n,k) p^k (1-p)^(n-k), 0 for negative and too-large counts, sums to 1 (binomial theorem); Bernoulli and DiscreteUniform: mass 1, first moment = mean(), second central moment = var() by exact finite sums; Uniform, Gumbel (density = derivative of its CDF), T via short specs; every density/mass is 0 outside the support (no panic outcome) and non-negative; the mean/var accessors equal the textbook formulas for all laws (with the infinite/undefined regimes of T and Pareto); Normal ln_pdf = log o pdf and the cdf formula; MVN pdf in terms of the cached inverse and determinant. MOMENTS AND MASSES AS INTEGRALS/SUMS of the density of the model itself (Props/C02Moments): total mass 1, integral of x pdf = mean(), integral of (x-mean)^2 pdf = var() for Exponential, Uniform, Gamma, ChiSquared, Beta, Normal, Pareto (with the infinite regimes: non-integrability exactly when the accessor says inf), Student t (mass 1 for every dof, mean/variance with complete NaN/inf case analysis), Gumbel (mass, CDF, mean = mu + beta gamma_Euler), Poisson and Binomial (sums); Normal cdf = integral of the density given erf = (2/sqrt pi) int_0^x e^(-t^2). PARTIAL: accuracy of Lanczos/erf (C09), the Gumbel variance as an integral, and that the MVN cache is the true inverse/determinant (C01/C11 prove the solver) are not proved; decided by the bit-exact tie (60k values quick) plus mpmath/scipy closed forms at every point and total mass / moments recomputed from the implementation's own values by quadrature or exact sums."),
         design='DESIGN.md §6 C02',
         technique="Lean 4 proof (identification with Mathlib's probability densities, finite-sum algebra) + bit-exact correspondence + mpmath/quadrature search"),
     "C18": dict(
@@ -36,7 +36,7 @@ CLAIMED = {
         design='DESIGN.md §6 C20',
         technique='Lean 4 proof (real analysis for monotonicity, power-series / Gamma-mixture PSD argument, table lemmas over the C04/C12/C15 models) + bit-exact correspondence'),
     "C01": dict(
-        text=('Kernel-checked theorems about the executable model of solve / solve_sys / invert_matrix / Matrix::solve / Matrix::inv, over any linearly ordered field (and over R with Real.sqrt): END-TO-END CORRECTNESS in exact arithmetic - whenever `solve a b` answers, A.x = b (Cholesky route: L.L^T = A and two triangular solves; LU route: P.A = L.U for every input and luSolve solves); on every non-singular input of order n >= 1 solve / solve_sys / invert_matrix never panic and return A^-1 b resp. A^-1 (Mathlib Matrix inverse), A.inv = I and inv.A = I; ROUTE INDEPENDENCE: any two valid routes return the same x; routing = Cholesky iff exactly symmetric with positive diagonal and all pivots positive, else LU, and every exactly symmetric positive-definite matrix is routed to Cholesky and factored; multi-RHS column c = single-RHS solve of column c with one route for all; inverse = solve against the identity; Matrix::solve / inv always use LU and are correct; layout conversions are mutually inverse transposes; forward/backward substitution solve T.x = b. ROUNDING (standard model fl(a op b) = (a op b)(1+d), |d| <= 2^-53, the one trusted link to IEEE arithmetic): backward-error bounds (T+dT)x = b, |dT| <= gamma_n|T| for both substitutions and the Cholesky solve for every n. Not proved: backward error of the LU / Cholesky factorisations themselves, hence the end-to-end floating-point residual bound, which is decided per run by the bit-exact tie on all six entry points (orders 1..32, all matrix classes incl. adversarial-pivot and sparse-SPD classes, 1..6 right-hand sides) plus an exact big-integer residual oracle ||A X - B|| <= 200 n eps (||A|| ||X|| + ||B||), A.A^-1 = I, and route/entry-point agreement.'),
+        text=('Kernel-checked theorems about the executable model of solve / solve_sys / invert_matrix / Matrix::solve / Matrix::inv, over any linearly ordered field (and over R with Real.sqrt): END-TO-END CORRECTNESS in exact arithmetic - whenever `solve a b` answers, A.x = b (Cholesky route: L.L^T = A and two triangular solves; LU route: P.A = L.U for every input and luSolve solves); on every non-singular input of order n >= 1 solve / solve_sys / invert_matrix never panic and return A^-1 b resp. A^-1 (Mathlib Matrix inverse), A.inv = I and inv.A = I; ROUTE INDEPENDENCE: any two valid routes return the same x; routing = Cholesky iff exactly symmetric with positive diagonal and all pivots positive, else LU, and every exactly symmetric positive-definite matrix is routed to Cholesky and factored; multi-RHS column c = single-RHS solve of column c with one route for all; inverse = solve against the identity; Matrix::solve / inv always use LU and are correct; layout conversions are mutually inverse transposes; forward/backward substitution solve T.x = b. ROUNDING (standard model fl(a op b) = (a op b)(1+d), |d| <= 2^-53, the one trusted link to IEEE arithmetic): backward-error bounds (T+dT)x = b, |dT| <= gamma_n|T| for both substitutions and the Cholesky solve for every n. and for the factorisations and `solve` itself (Props/RoundingLU): whatever solve returns satisfies (A+dA)x = b with |dA| <= gamma_(3n)|L||U| (LU route; norm-wise gamma_(3n) n ||U||) resp. gamma_(3n+1)|L||L^T| (Cholesky route), with residual corollaries. Not proved: a bound on the pivoting growth factor, hence the residual in the ||A||-form of the property, which is decided per run by the bit-exact tie on all six entry points (orders 1..32, all matrix classes incl. adversarial-pivot and sparse-SPD classes, 1..6 right-hand sides) plus an exact big-integer residual oracle ||A X - B|| <= 200 n eps (||A|| ||X|| + ||B||), A.A^-1 = I, and route/entry-point agreement.'),
         design='DESIGN.md §6 C01',
         technique='Lean 4 proof (loop invariants for LU and Cholesky, P.A = L.U, L.L^T = A, solve correctness and totality via Mathlib Matrix, standard-model rounding bounds) + bit-exact correspondence + exact residual oracle'),
     "C03": dict(
@@ -48,11 +48,11 @@ CLAIMED = {
         design='DESIGN.md §6 C09',
         technique='Lean 4 proof (structure/recurrence/sign/positivity over ordered fields and R, exact table decoding) + bit-exact correspondence + mpmath-50 search'),
     "C10": dict(
-        text=('Kernel-checked refinement theorems: for every gradient oracle, start, hyper-parameters and budget k < 2^31 the model of Adam returns iterate min(k, stopIdx) of the Kingma-Ba recurrence (bias correction with t from 1), and SGD (plain, momentum, Nesterov with the gradient at theta - mu u) likewise; prefix property and determinism; an early stop implies every parameter moved by less than eps relative (signed test); Levenberg-Marquardt (exact solve, ordered field): predicted reduction >= 0, an accepted step strictly decreases the residual sum of squares, rss(theta_t) <= rss(theta_0) for every budget, the stored J^T J / residual belong to the current parameters and the result is (theta, rss/(n-p) (J^T J)^-1) at the returned point; the model of the `reverse` tape returns the formal partial derivatives for programs over + - x neg (PARTIAL for / powi exp sin nodes). LM convergence and rounding are not proved. Tied to the Rust code by bit-exact replay of whole trajectories (maxsteps = 1..K) through an RPN objective catalogue interpreted with real reverse::Var on one side and the tape model on the other; interval-arithmetic recurrence oracle. One open finding (dependency `reverse`: f64 / Var derivative weight) is listed in known_findings.txt.'),
+        text=('Kernel-checked refinement theorems: for every gradient oracle, start, hyper-parameters and budget k < 2^31 the model of Adam returns iterate min(k, stopIdx) of the Kingma-Ba recurrence (bias correction with t from 1), and SGD (plain, momentum, Nesterov with the gradient at theta - mu u) likewise; prefix property and determinism; an early stop implies every parameter moved by less than eps relative (signed test); Levenberg-Marquardt (exact solve, ordered field): predicted reduction >= 0, an accepted step strictly decreases the residual sum of squares, rss(theta_t) <= rss(theta_0) for every budget, the stored J^T J / residual belong to the current parameters and the result is (theta, rss/(n-p) (J^T J)^-1) at the returned point; the model of the `reverse` tape returns the Frechet derivative of the objective for EVERY node kind of the catalogue (+ - x / neg powi exp sin) except `f64 / Var` nodes, for which the wrong weight of the dependency -1/x is itself a theorem (the open finding); hence Adam/SGD follow the published rule with the TRUE gradient; LM descent holds unconditionally for tau > 0 and no vanishing Jacobian column (damped normal matrix positive definite, LU solve exact). LM convergence and rounding are not proved. Tied to the Rust code by bit-exact replay of whole trajectories (maxsteps = 1..K) through an RPN objective catalogue interpreted with real reverse::Var on one side and the tape model on the other; interval-arithmetic recurrence oracle. One open finding (dependency `reverse`: f64 / Var derivative weight) is listed in known_findings.txt.'),
         design='DESIGN.md §6 C10',
         technique='Lean 4 proof (loop-to-iterate refinement, LM descent invariant, chain rule over commutative rings) + bit-exact trajectory correspondence'),
     "C11": dict(
-        text=("Kernel-checked theorems about the models of lu / cholesky / substitutions / det (slice level and Matrix level): CHOLESKY - whenever cholesky returns l it is lower triangular with positive diagonal and L.L^T = A; every exactly symmetric positive-definite matrix is factored (completeness, uniqueness of the factor); the sweep rejects exactly at a diagonal cell whose pivot is <= 0 and non-symmetric input panics; LU - for EVERY square input over an ordered field the pivot vector is a permutation, P.A = L.U (with the exact residual identity and the necessary-and-sufficient condition over general fields), every multiplier satisfies |l_ij| <= 1 and is 0 under a zero pivot; prod diag U = det(P.A), pivots all non-zero iff det != 0; DETERMINANT - ipiv_parity returns Mathlib's Equiv.Perm.sign of the pivot permutation for every size (never diverges, panics exactly on non-permutations), so det = sign . prod diag U; Matrix-level lu, lu_solve, cholesky, substitutions equal the slice-level ones; triangular solves invert triangular systems. Not proved: floating-point rounding of the reconstruction residuals - decided per run by the bit-exact tie and exact big-integer oracles (||PA - LU||, ||LL^T - A|| within c n eps ||A||, |L| <= 1, permutation, exact determinants of integer matrices by Bareiss, indefinite input rejected, Matrix = slice bit for bit)."),
+        text=("Kernel-checked theorems about the models of lu / cholesky / substitutions / det (slice level and Matrix level): CHOLESKY - whenever cholesky returns l it is lower triangular with positive diagonal and L.L^T = A; every exactly symmetric positive-definite matrix is factored (completeness, uniqueness of the factor); the sweep rejects exactly at a diagonal cell whose pivot is <= 0 and non-symmetric input panics; LU - for EVERY square input over an ordered field the pivot vector is a permutation, P.A = L.U (with the exact residual identity and the necessary-and-sufficient condition over general fields), every multiplier satisfies |l_ij| <= 1 and is 0 under a zero pivot; prod diag U = det(P.A), pivots all non-zero iff det != 0; DETERMINANT - ipiv_parity returns Mathlib's Equiv.Perm.sign of the pivot permutation for every size (never diverges, panics exactly on non-permutations), so det = sign . prod diag U; Matrix-level lu, lu_solve, cholesky, substitutions equal the slice-level ones; triangular solves invert triangular systems. ROUNDING (standard model): |L L^T - A| <= gamma_(n+1)|L||L^T| and |L U - P A| <= gamma_n|L||U| for the computed factors, multipliers <= 1 under monotone rounding. Not proved: the growth factor behind the oracle's norm-wise tolerance - decided per run by the bit-exact tie and exact big-integer oracles (||PA - LU||, ||LL^T - A|| within c n eps ||A||, |L| <= 1, permutation, exact determinants of integer matrices by Bareiss, indefinite input rejected, Matrix = slice bit for bit)."),
         design='DESIGN.md §6 C11',
         technique='Lean 4 proof (column-loop invariant for P.A = L.U, Cholesky sweep invariant, cycle-shortening invariant for parity = Equiv.Perm.sign) + bit-exact correspondence + exact reconstruction oracle'),
     "C13": dict(
@@ -71,7 +71,7 @@ CLAIMED = {
               "to call the kernel generated from its own operator token with arguments in order (self, other), the right shape source and (for matrix compound "
               "assignment) a shape assert, so each operator form computes the scalar op at each position with shape preserved; reductions in exact arithmetic: "
               "sum8 = sum, dot8 = sum of products, prod, norm = sqrt(sum x^2), max, inf_norm, logsumexp = log sum exp x_i and logmeanexp over R with all shifted "
-              "exponents <= 0 and 1 <= sum exp(x_i - m) <= n (no overflow at any magnitude); WORST-CASE ROUNDING BOUNDS in the standard model of floating-point arithmetic (trusted link: IEEE binary64 satisfies fl(a op b) = (a op b)(1+d), |d| <= 2^-53 barring overflow/underflow): |sum8 x - sum x| <= gamma_(n-1) sum|x|, dot within gamma_n sum|x_i y_i|, prod within gamma_n relative, for the exact 8-way unrolled association. Tied bit for bit to the Rust code on all lengths 0..40 and random lengths "
+              "exponents <= 0 and 1 <= sum exp(x_i - m) <= n (no overflow at any magnitude); WORST-CASE ROUNDING BOUNDS in the standard model of floating-point arithmetic (trusted link: IEEE binary64 satisfies fl(a op b) = (a op b)(1+d), |d| <= 2^-53 barring overflow/underflow): |sum8 x - sum x| <= gamma_(n-1) sum|x|, dot within gamma_n sum|x_i y_i|, prod within gamma_n relative, norm within gamma_(n/2+2) relative, inf_norm within gamma_ncols relative, for the exact 8-way unrolled association. Tied bit for bit to the Rust code on all lengths 0..40 and random lengths "
               "to 1e4 for every form, map and special value; exact element-wise oracle and worst-case gamma_n-bound oracles for the reductions (rounding bounds are "
               "checked, not proved)."),
         design="DESIGN.md §6 C04",
@@ -112,7 +112,7 @@ CLAIMED = {
               "covariance algorithms (two-pass, sample, repaired one-pass and online) equal the textbook (sample) covariance and agree; shift invariance and "
               "quadratic/bilinear scaling; argmin/argmax return the first index of an extremum (guard: data within the f64::MAX/MIN seeds, the out-of-guard behaviour "
               "is a separate theorem); min/max equal List.minimum/maximum on NaN-free input; Matrix argmin = (i / ncols, i % ncols); histogram centres are midpoints of "
-              "consecutive edges; rounding bounds in the standard model for both mean algorithms (mean within gamma_n, Welford mean ~ (n/2+6.5) u max|x|). PARTIAL: the rounding bound for variance / covariance is decided by the bit-exact tie plus an exact-rational oracle with a "
+              "consecutive edges; rounding bounds in the standard model for both mean algorithms (mean within gamma_n, Welford mean ~ (n/2+6.5) u max|x|), for the two-pass covariance/variance (gamma_(n+5) times an exactly shift-invariant centred scale plus second-order terms in the means) and for the Welford M2 / var (whose bound provably must contain a mean term). PARTIAL: rounding of the one-pass and online covariance is decided by the bit-exact tie plus an exact-rational oracle with a "
               "condition-number-scaled bound, not by proof."),
         design="DESIGN.md §6 C08",
         technique="Lean 4 proof (loop invariants by induction over the data list, field_simp/ring) + bit-exact correspondence + exact-rational oracle"),
